@@ -27,7 +27,9 @@ RULE = ("convexhull_mask: (1) integer-lattice clouds of 3..15 points (collinear 
         "every third lattice cloud has int64/int32 coordinates; the model always sees the logical C-order sequence. About 40% of the mask "
         "cases (all streams; array and grid form) carry one or two EXTRA coordinate arrays on the data (non-coplanar heights) and / or the query "
         "(constant or varying): the mask must be the two-coordinate mask; 30% of the project_grid inputs carry an extra 2-D coordinate. "
-        "(4b) convexhull_mask(projection=...) in array and grid form with a logging projection: integer-linear non-separable maps "
+        "Grid-form Datasets are built in four ways (data_vars+coords; DataArray with easting declared first then to_dataset; coords first then the "
+        "variable assigned; merge declaring easting first - the last three have Dataset-level dimension order (easting, northing)), square and "
+        "non-square, custom dim names. (4b) convexhull_mask(projection=...) in array and grid form with a logging projection: integer-linear non-separable maps "
         "(Pythagorean rotations, shears, exact, re-computed in Coq) on lattice clouds, and a polar azimuthal projection of lon/lat sectors with "
         "queries outside the data's lon/lat bounding box but inside the projected hull and vice versa (compared away from the hull boundary). "
         "project_grid: 5x6..8x9 grids with 0..4 scattered NaN holes (incl. corners) and/or NaN holes blanking one or two COMPLETE rows and columns (edge and interior), names foo/None/custom, projections axis-aligned affine (dyadic "
@@ -185,7 +187,29 @@ def mask_case(vd, dx, dy, qx, qy, kind, rnd=None, dtype=float):
                  "dtype": np.dtype(dtype).name, "extras": exd}, o, term, repro, kind)
 
 
-def mask_proj_case(vd, dx, dy, qx, qy, proj, kind, lin=None, grid=None, dims=("northing", "easting")):
+DATASET_WAYS = ["data_vars+coords", "dataarray-easting-first.to_dataset", "coords-then-assign", "merge-easting-first"]
+
+
+def build_dataset(how, dims, east, north, vals, name="scalars"):
+    """the same valid (northing, easting) grid built in four ways; in the last three the Dataset-level dimension
+    order (Dataset.sizes / .dims) is (easting, northing) although the variable's dims are (northing, easting)"""
+    import xarray as xr
+    dn, de = dims
+    if how == "data_vars+coords":
+        return xr.Dataset({name: ([dn, de], vals)}, coords={de: east, dn: north})
+    if how == "dataarray-easting-first.to_dataset":
+        return xr.DataArray(vals, coords={de: east, dn: north}, dims=(dn, de)).to_dataset(name=name)
+    if how == "coords-then-assign":
+        ds = xr.Dataset(coords={de: east, dn: north})
+        ds[name] = ((dn, de), vals)
+        return ds
+    if how == "merge-easting-first":
+        return xr.merge([xr.Dataset(coords={de: east}), xr.Dataset(coords={dn: north}),
+                         xr.DataArray(vals, coords={dn: north, de: east}, dims=(dn, de), name=name)])
+    raise ValueError(how)
+
+
+def mask_proj_case(vd, dx, dy, qx, qy, proj, kind, lin=None, grid=None, dims=("northing", "easting"), how="data_vars+coords"):
     """convexhull_mask(..., projection=proj): array form (query arrays qx, qy) or, with grid=(east, north), grid form
     (query = meshgrid of the grid's own vectors).  The wrapped callable logs its inputs and outputs; the expectation is
     the hull test on the projected points it returned."""
@@ -204,7 +228,8 @@ def mask_proj_case(vd, dx, dy, qx, qy, proj, kind, lin=None, grid=None, dims=("n
             inp.update({"easting": east.tolist(), "northing": north.tolist(), "dims": list(dims), "form": "grid"})
             qx, qy = np.meshgrid(east, north)
             vals = np.arange(1.0, east.size * north.size + 1).reshape(north.size, east.size)
-            ds = xr.Dataset({"scalars": (list(dims), vals)}, coords={dims[1]: east, dims[0]: north})
+            inp["dataset_built"] = how
+            ds = build_dataset(how, dims, east, north, vals)
             out = vd.convexhull_mask((dx, dy), grid=ds, projection=proj)
             ov = out["scalars"].values
             o = (~np.isnan(ov)).ravel(order="C") if ov.shape == vals.shape else np.zeros(0, dtype=bool)
@@ -262,7 +287,7 @@ def projected_mask_cases(vd, rnd, count):
         east = styled_axis(rnd, rnd.randint(-4, 4) / 4, rnd.choice([1.0, 1.5]), nx, rnd.choice(AXIS_STYLES))
         north = styled_axis(rnd, rnd.randint(-4, 4) / 4, rnd.choice([1.0, 1.25]), ny, rnd.choice(AXIS_STYLES))
         out.append(mask_proj_case(vd, px, py, None, None, linear_projection(nm)[0], "mask-projected", lin=lin, grid=(east, north),
-                                  dims=rnd.choice([("northing", "easting"), ("lat", "lon")])))
+                                  dims=rnd.choice([("northing", "easting"), ("lat", "lon")]), how=DATASET_WAYS[i % 4]))
         # (b) curved stream: polar projection of a lon/lat sector; queries outside the lon/lat bounding box of the data
         #     whose projection is inside the projected hull (poleward of the sector, around the central meridian),
         #     queries inside the box but outside the projected hull (between two data points of the outer arc), random ones
@@ -282,7 +307,7 @@ def projected_mask_cases(vd, rnd, count):
         glon = lon0 + np.linspace(-1.1, 1.1, rnd.choice([5, 6, 8])) * half
         glat = np.linspace(lat_s - 3.0, min(89.0, lat_n + 7.0), rnd.choice([7, 9]))[::-1].copy()     # raster orientation
         out.append(mask_proj_case(vd, dlon, dlat, None, None, polar_projection(), "mask-projected-polar", grid=(glon, glat),
-                                  dims=("latitude", "longitude")))
+                                  dims=("latitude", "longitude"), how=DATASET_WAYS[(i + 1) % 4]))
     return out
 
 
@@ -372,7 +397,7 @@ def mask_scaled_case(vd, pts, qs, sx, ox, sy, oy, kind, rnd=None):
                 {"mask_base": [bool(b) for b in obs_base], "mask": [bool(b) for b in obs]}, term, repro, kind)
 
 
-def mask_forms_case(vd, dx, dy, east, north, dims, kind, rnd=None):
+def mask_forms_case(vd, dx, dy, east, north, dims, kind, rnd=None, how="data_vars+coords"):
     import xarray as xr
     dx, dy, east, north = [np.asarray(v, dtype=float) for v in (dx, dy, east, north)]
     coords = np.meshgrid(east, north)
@@ -385,7 +410,8 @@ def mask_forms_case(vd, dx, dy, east, north, dims, kind, rnd=None):
     inp0 = {"fn": "convexhull_mask-forms", "data": [np.asarray(dx).tolist(), np.asarray(dy).tolist()], "easting": east.tolist(),
             "northing": north.tolist(), "dims": list(dims), "extras": exd}
     vals = np.arange(1.0, east.size * north.size + 1).reshape(north.size, east.size)
-    ds = xr.Dataset({"scalars": (list(dims), vals)}, coords={dims[1]: east, dims[0]: north})
+    inp0["dataset_built"] = how
+    ds = build_dataset(how, dims, east, north, vals)
     try:
         arr = vd.convexhull_mask((dx, dy) + dex, coordinates=tuple(coords) + qex)
         out = vd.convexhull_mask((dx, dy) + dex, grid=ds)      # the grid form takes its two coordinates from the grid
@@ -404,6 +430,7 @@ def mask_forms_case(vd, dx, dy, east, north, dims, kind, rnd=None):
              "g=xr.Dataset({'scalars': (%r, np.ones((n.size, e.size)))}, coords={%r: e, %r: n}); "
              "print(verde.convexhull_mask(d, grid=g).scalars.values)" % (dx.tolist(), dy.tolist(), east.tolist(), north.tolist(),
                                                                          list(dims), dims[1], dims[0]))
+    repro = "# Dataset built: %s (see harness/c16.py build_dataset)\n" % how + repro
     if exd is not None:
         repro = "# extra coordinates appended to the data / query tuples: %r\n" % (exd,) + repro
     return Case(inp0, {"array_form": arr_rows, "grid_form_kept": kept_rows, "dims_ok": dims_ok}, term, repro, kind)
@@ -702,6 +729,8 @@ def generate(tier, seed):
     for i in range(40 if quick else 400):
         nx = rnd.randint(3, 8)
         ny = rnd.choice([m for m in range(2, 9) if m != nx])
+        if i % 6 == 5:      # square grids too: swapped axes then give a silently wrong mask instead of a shape error
+            ny = nx
         se = rnd.choice(AXIS_STYLES) if i % 4 else "ascending"
         sn = rnd.choice(AXIS_STYLES) if i % 4 != 1 else "descending"
         if i % 4 == 0:
@@ -724,7 +753,7 @@ def generate(tier, seed):
             sy, oy = rnd.choice([(1000.0, -1e6), (1.0, 1e7), (2.0 ** 20, 0.0), (0.5, 5e5)])
             dxs, east, dys, north = sx * dxs + ox, sx * east + ox, sy * dys + oy, sy * north + oy
         dims = rnd.choice([("northing", "easting"), ("lat", "lon"), ("y", "x")])
-        cases.append(mask_forms_case(vd, dxs, dys, east, north, dims, "mask-forms", rnd=rnd))
+        cases.append(mask_forms_case(vd, dxs, dys, east, north, dims, "mask-forms", rnd=rnd, how=DATASET_WAYS[i % 4]))
     # (4b) convexhull_mask with a projection: the mask is the hull test on the PROJECTED points
     cases += projected_mask_cases(vd, rnd, 6 if quick else 60)
     # (5) project_grid
